@@ -33,12 +33,20 @@ struct RB {
   virtual ~RB() = default;
   // with calibration
   virtual SV sensor_model(const ImplT&, const SV& s, const Cal& c) const {
+    if (key == 2) {  // a "rejected" reading: the filter returns its input unchanged
+      std::printf("S %d %d %d %d %d\n", s.id, key, zid, s.id, c.v);
+      return s;
+    }
     SV o{g_next++};
     std::printf("S %d %d %d %d %d\n", o.id, key, zid, s.id, c.v);
     return o;
   }
   // without calibration
   virtual SV sensor_model(const ImplT&, const SV& s) const {
+    if (key == 2) {
+      std::printf("S %d %d %d %d %d\n", s.id, key, zid, s.id, -1);
+      return s;
+    }
     SV o{g_next++};
     std::printf("S %d %d %d %d %d\n", o.id, key, zid, s.id, -1);
     return o;
